@@ -77,6 +77,12 @@ def distinguished_chars(model):
                             for c in (lo, hi, lo - 1, hi + 1, (lo + hi) // 2):
                                 if 0 <= c < 0x110000:
                                     out.add(chr(c))
+                        elif iop is SC.CATEGORY:
+                            out.update(RX_CATEGORY_CHARS.get(str(iarg).lower(), ""))
+                elif op is SC.CATEGORY:
+                    out.update(RX_CATEGORY_CHARS.get(str(arg).lower(), ""))
+                elif op is SC.ANY:
+                    out.add("\n")
                 elif op is SC.BRANCH:
                     for alt in arg[1]:
                         walk(list(alt))
@@ -85,6 +91,46 @@ def distinguished_chars(model):
                 elif op in (SC.MAX_REPEAT, SC.MIN_REPEAT):
                     walk(list(arg[2]))
         walk(list(tree))
+    out |= library_chars(model)
+    return out
+
+
+# characters that library calls treat specially without naming them in the source
+LIB_LINE_BOUNDARIES = "\n\r\v\f\x1c\x1d\x1e\x85\u2028\u2029"
+LIB_WHITESPACE = " \t\n\r\v\f\x1c\x1f\x85\xa0\u2028\u3000"
+LIB_CHARS = {
+    "splitlines": LIB_LINE_BOUNDARIES,
+    "isspace": LIB_WHITESPACE, "strip()": LIB_WHITESPACE, "lstrip()": LIB_WHITESPACE,
+    "rstrip()": LIB_WHITESPACE, "split()": LIB_WHITESPACE, "rsplit()": LIB_WHITESPACE,
+    "isdigit": "0\u0663\u00b2", "isdecimal": "0\u0663\u00b2", "isnumeric": "0\u0663\u00b2\u00bd",
+    "int": "0\u0663", "float": "0\u0663",
+    "isalpha": "a\u00e9\u0663_", "isalnum": "a\u00e9\u0663_",
+    "isascii": "\x7f\x80", "expandtabs": "\t",
+    "isupper": "A\u00c9", "islower": "a\u00e9",
+}
+RX_CATEGORY_CHARS = {"category_space": LIB_WHITESPACE, "category_not_space": LIB_WHITESPACE,
+                     "category_digit": "0\u0663\u00b2", "category_not_digit": "0\u0663\u00b2",
+                     "category_word": "a\u00e9\u0663_-", "category_not_word": "a\u00e9\u0663_-"}
+
+
+def library_chars(model):
+    """Characters that builtins used by the text layer distinguish although the
+    source never writes them: the line boundaries of str.splitlines(), the
+    white space of strip()/split()/isspace(), non-ASCII digits for
+    isdigit()/int(), the Unicode classes behind \\s \\d \\w and '.'."""
+    out = set()
+    for short in TEXT_MODULES:
+        mod = model.module(short)
+        for n in ast.walk(mod.tree):
+            if isinstance(n, ast.Call) and isinstance(n.func, ast.Attribute):
+                a = n.func.attr
+                if a in LIB_CHARS:
+                    out.update(LIB_CHARS[a])
+                if not n.args and not n.keywords and a + "()" in LIB_CHARS:
+                    out.update(LIB_CHARS[a + "()"])
+            elif isinstance(n, ast.Call) and isinstance(n.func, ast.Name) and n.func.id in ("int", "float") \
+                    and n.args:
+                out.update(LIB_CHARS[n.func.id])
     return out
 
 
@@ -788,6 +834,24 @@ def explore_physical(ctx):
         pool.append("D:" + c * 60)
         pool.append("D:" + "a" * 70 + c * 12)
         pool.append("D:" + ("a" * 7 + c) * 20)
+    # fold boundaries: every character of each width class (and the white space characters,
+    # which a folder may treat specially) at every octet offset around the first and the
+    # second fold point
+    boundary = []
+    samples = [" ", "\t", "é", "€", "\U0001F600"] + \
+        sorted(ch for ch in distinguished_chars(model) if ord(ch) >= 0x80 and not 0xD800 <= ord(ch) <= 0xDFFF)
+    seen_w = set()
+    for c in samples:
+        w = (len(c.encode("utf-8")), c if c in " \t" else "")
+        if w in seen_w and ord(c) < 0x80:
+            continue
+        if w in seen_w and not ctx.thorough and c not in distinguished_chars(model):
+            continue
+        seen_w.add(w)
+        for r in list(range(66, 76)) + list(range(140, 151)) + ([214, 215, 216, 217, 218, 219, 220, 221, 222] if ctx.thorough else []):
+            boundary.append("D:" + "a" * (r - 2) + c + "b" * 5 + c + "a" * 90)
+            boundary.append("D:" + "a" * (r - 2) + c * 4 + "a" * 80)
+
     def check_physical(L, phys, how):
         """The fold laws on one serialised line."""
         parts = phys.split(b"\r\n")
@@ -845,6 +909,22 @@ def explore_physical(ctx):
                 except AbsRaise as e:
                     F.add("unfold", f"Contentline.from_ical / to_ical raises {e.cls_name} on a line folded "
                           f"by characters", line=L[:30] + "…")
+        for L in boundary:
+            F.n += 1
+            cl = it.instantiate(CL, [L], {})
+            phys = it.run(it.getattr(cl, "to_ical"), [], {})
+            if not isinstance(phys, bytes):
+                raise Unsupported(f"Contentline.to_ical returned {phys!r}")
+            check_physical(L, phys, "Contentline(text).to_ical(), character at a fold boundary")
+            try:
+                back = _s(it.run(line_from, [phys], {}))
+            except AbsRaise as e:
+                F.add("unfold", f"Contentline.from_ical raises {e.cls_name} on the serialised line",
+                      line=L[:30] + "…")
+                continue
+            if back != L:
+                F.add("unfold", "Contentline.from_ical(to_ical()) does not restore the line exactly",
+                      line=L[:30] + "…", restored=back[:60])
         # several lines
         for combo in ((0, 1), (1, 2, 3), (5, 0, 6), (8, 9)):
             F.n += 1
@@ -871,6 +951,26 @@ def explore_physical(ctx):
         if want != base_lines + [""]:
             F.add("reader", "Contentlines.from_ical does not return the logical lines plus the "
                   "empty terminator", got=want)
+        # only CRLF / LF end a line, only CRLF + SPACE/HTAB is a fold: every other
+        # character the text layer (or a builtin it calls) can tell apart stays in its line
+        for c in sorted(distinguished_chars(model)):
+            if c in "\r\n" or 0xD800 <= ord(c) <= 0xDFFF:
+                continue
+            for eol in ("\r\n", "\n"):
+                F.n += 1
+                text = f"A:x{c}y{eol}B:{c}{eol}C:z{c}{eol}"
+                exp_lines = [f"A:x{c}y", f"B:{c}", f"C:z{c}", ""]
+                for data, how in ((text.encode("utf-8"), "bytes"), (text, "str")):
+                    try:
+                        got = logical(it.run(lines_from, [data], {}))
+                    except AbsRaise as e:
+                        F.add("reader", f"Contentlines.from_ical raises {e.cls_name} on lines containing "
+                              f"a character that is no line break", char=repr(c), input=how)
+                        continue
+                    if got != exp_lines:
+                        F.add("reader", "Contentlines.from_ical splits or changes lines at a character "
+                              "that is neither CRLF nor LF", char=repr(c), input=how,
+                              got=[x[:12] for x in got][:6])
         variants = {
             "str instead of bytes": canon,
             "LF line ends": canon.replace("\r\n", "\n").encode(),
